@@ -94,6 +94,8 @@ def make_solver(pb, config, stack_max_height=None, decision_domains=None):
         kw["dom_heuristic_params"] = config["costs"]
     if stack_max_height is not None:
         kw["stack_max_height"] = stack_max_height
+    if decision_domains is None and config.get("decision") is not None:
+        decision_domains = list(config["decision"])
     if decision_domains is not None:
         kw["decision_domains"] = decision_domains
     return BacktrackSolver(
